@@ -101,7 +101,7 @@ CLAIMED = {
    note='regex via oracle table; Python == across bool/int/Decimal modelled by pyEq; PyLite translator + evaluator are trusted and validated by the pyeval correspondence',
    ref='6/C17'),
  'C20': dict(
-   technique='Lean 4 proof (table state machine: rewrite / append / update=fold of upserts; latest values per key, key uniqueness preserved, truthful flags, histories compose) + sqlhist correspondence + SELECT-after-every-dump oracle on SQLite',
+   technique='Lean 4 proof (table state machine: rewrite / append / update=fold of upserts; latest values per key, key uniqueness preserved, truthful flags, histories compose) + sqlhist correspondence + SELECT-after-every-dump oracle on SQLite + translator tie (Tie_sql_rewrite_drop, Tie_sql_update_keys: the two statements of SQLDumper.process_resource that read the mode, re-translated from the working tree on every run: drop-first exactly for rewrite, update keys = explicit, else primary key, only in update mode) + pyeval correspondence on a recording storage',
    text='C20_update_latest, C20_update_unique, C20_flags_truthful, C20_history hold for every table, key list and sequence of dumps. Real histories of 1-5 dumps into one SQLite file (mode, explicit or primary-key update keys, batch size, bloom filter, array/object columns) are compared after every dump with the specification and with the model; downstream rows must be unchanged apart from the flag.',
    note="tableschema_sql's writer (buffering, bloom filter) and SQLite are third-party: covered by correspondence; a table is compared as a multiset of rows (SELECT order is the engine's)",
    ref='6/C20'),
